@@ -123,6 +123,30 @@ EvalClosure(p, a, b) ==
       g2 == BinW(p.op, 3, a, p.pres, TRUE)
   IN IF ~g1.ok \/ ~g2.ok THEN Panic ELSE BinW(p.op2, g1.v, g2.v, p.pres, FALSE)
 
+\* "hoistarms":  p, q := pick(a), pick(b); for i := 0; i < clamp(a); i++ { if i CMP 1 { s += len(p) } else { s += len(q)*2 } }
+\* (two loop-invariant pure calls, one in each arm of a flippable test inside the loop)
+SLen(k) == CASE k = 0 -> 0 [] k = 1 -> 2 [] k = 2 -> 3 [] k = 3 -> 3 [] OTHER -> 1     \* len(pick(k)), as StrLen below
+RECURSIVE HARun(_, _, _, _, _, _)
+HARun(p, i, n, lp, lq, s) ==
+  IF i >= n THEN s
+  ELSE LET c == IF p.pres.flip THEN ~Cmp(Negate(p.cmp), i, 1) ELSE Cmp(p.cmp, i, 1)
+       IN HARun(p, i + 1, n, lp, lq, IF c THEN s + lp ELSE s + lq * 2)
+EvalHoistArms(p, a, b) == Val(HARun(p, 0, Clamp(a), SLen(Clamp(a)), SLen(Clamp(b)), 0))
+
+\* "bigloop":  s := 0; for i := KS; i < b; i += KT { s++ }; return s + a     (large literals as loop start and step)
+RECURSIVE BLRun(_, _, _, _)
+BLRun(p, i, b, s) == IF i >= b THEN s ELSE BLRun(p, i + p.kt, b, s + 1)
+EvalBigLoop(p, a, b) == Val(BLRun(p, p.ks, b, 0) + a)
+
+\* "selectone":  ca, cb := make(chan int, 1), make(chan int, 1); ca <- a
+\*               select { case v := <-FIRST: return v; case v := <-SECOND: return -v }   (only ca is ready)
+EvalSelectOne(p, a, b) == IF p.first = "ca" THEN Val(a) ELSE Val(-a)
+
+\* "ivwidth":  s := 0; for i := TY(0); i < TY(clamp(a)+4); i++ { s += int(i * 60) }; return s   (TY: uint8 | uint16)
+RECURSIVE IWRun(_, _, _, _)
+IWRun(p, i, n, s) == IF i >= n THEN s ELSE IWRun(p, i + 1, n, s + (IF p.ty = "uint8" THEN (i * 60) % 256 ELSE i * 60))
+EvalIVWidth(p, a, b) == Val(IWRun(p, 0, Clamp(a) + 4, 0))
+
 \* "closure2":  u, v := a + 1, b - 1; g := func(x int) int { return x*u OP v }; return g(b) OP2 g(3)
 \* (a literal capturing TWO variables of the same type, used asymmetrically; the namings of the emitter
 \* reverse the alphabetical order of the two captured names)
@@ -250,6 +274,8 @@ Eval(p, a, b) ==
     [] p.tpl = "ubig" -> EvalUBig(p, a, b) [] p.tpl = "consttype" -> EvalConstType(p, a, b)
     [] p.tpl = "sibloops" -> EvalSibLoops(p, a, b) [] p.tpl = "dectree" -> EvalDecTree(p, a, b)
     [] p.tpl = "labeled" -> EvalLabeled(p, a, b) [] p.tpl = "closure2" -> EvalClosure2(p, a, b)
+    [] p.tpl = "hoistarms" -> EvalHoistArms(p, a, b) [] p.tpl = "bigloop" -> EvalBigLoop(p, a, b)
+    [] p.tpl = "selectone" -> EvalSelectOne(p, a, b) [] p.tpl = "ivwidth" -> EvalIVWidth(p, a, b)
     [] p.tpl = "orand" -> EvalOrAnd(p, a, b) [] p.tpl = "switch2" -> EvalSwitch2(p, a, b) [] p.tpl = "loop" -> EvalLoop(p, a, b)
     [] p.tpl = "bigconst" -> EvalBigConst(p, a, b)
     [] p.tpl = "loopbranch" -> EvalLoopBranch(p, a, b) [] p.tpl = "rangebranch" -> EvalRangeBranch(p, a, b) [] p.tpl = "strbranch" -> EvalStrBranch(p, a, b)
@@ -271,6 +297,10 @@ Straight == [tpl : {"straight"}, op1 : Ops, op2 : Ops, op3 : Ops, pres : {Plain}
 CallP == [tpl : {"call"}, f : Callees, g : Callees, op : {"+", "-", "*"}, pres : {Plain}]
 RecP == [tpl : {"rec"}, op : {"+", "*", "-"}, c0 : {0, 1}, d : {1, 2}, pres : {Plain}]
 Closure == [tpl : {"closure"}, op : Ops, op2 : {"+", "-", "*"}, pres : {Plain}]
+HoistArms == [tpl : {"hoistarms"}, cmp : {">=", ">", "<", "<="}, pres : {Plain}]
+BigLoop == [tpl : {"bigloop"}, ks : {100, 200}, kt : {32, 64}, pres : {Plain}]
+SelectOne == [tpl : {"selectone"}, first : {"ca", "cb"}, pres : {Plain}]
+IVWidth == [tpl : {"ivwidth"}, ty : {"uint8", "uint16"}, pres : {Plain}]
 Closure2 == [tpl : {"closure2"}, op : {"+", "-", "%"}, op2 : {"+", "-", "*"}, pres : {Plain}]
 LoopBranch == [tpl : {"loopbranch"}, cmp : Cmps, rhs : {"b", "k"}, thenOp : {"+", "-"}, elseOp : {"+", "-"}, pres : {Plain}]
 RangeBranch == [tpl : {"rangebranch"}, cmp : Cmps, rhs : {"b", "k"}, thenOp : {"+", "-"}, elseOp : {"+", "-"}, pres : {Plain}]
@@ -292,7 +322,8 @@ Extract == [tpl : {"extract"}, sel : {"x", "y"}, small : {3, 5}, pres : {Plain}]
 Holes(p) == DOMAIN p \ {"tpl", "pres"}
 \* the values a hole may take (for one-hole edits)
 Alt(p, h) ==
-  CASE h \in {"cmp"} -> IF p.tpl = "loop" THEN {"<", "<="} ELSE IF p.tpl = "orand" THEN {">", ">="} ELSE Cmps
+  CASE h \in {"cmp"} -> IF p.tpl = "loop" THEN {"<", "<="} ELSE IF p.tpl = "orand" THEN {">", ">="}
+                         ELSE IF p.tpl = "hoistarms" THEN {">=", ">", "<", "<="} ELSE Cmps
     [] h \in {"lhs", "bound", "outer"} -> {"a", "b"}
     [] h = "rhs" -> IF p.tpl \in {"loopbranch", "rangebranch", "sharedcmp"} THEN {"b", "k"} ELSE {"a", "b", "k"}
     [] h = "sel" -> {"x", "y"}
@@ -301,7 +332,8 @@ Alt(p, h) ==
     [] h \in {"thenE", "elseE"} -> IF p.tpl = "strbranch" THEN {"b", "7"} ELSE IF p.tpl \in {"sharedcmp", "fltbranch", "orand", "switch2"} THEN SExprs ELSE Exprs
     [] h = "k1" -> {1000, 2000, 17, -1000} [] h = "k" -> {"max", "max7", "hi16", "mid"}
     [] h \in {"c2", "c3"} -> {"b>0", "a>b"} [] h \in {"l1", "l2", "l3", "l4"} -> Leaves
-    [] h = "ty" -> {"int32", "int64", "uint8"} [] h = "ret" -> {"i-j", "j-i", "i+j", "i*2+j"}
+    [] h = "ty" -> IF p.tpl = "ivwidth" THEN {"uint8", "uint16"} ELSE {"int32", "int64", "uint8"}
+    [] h = "ks" -> {100, 200} [] h = "kt" -> {32, 64} [] h = "first" -> {"ca", "cb"} [] h = "ret" -> {"i-j", "j-i", "i+j", "i*2+j"}
     [] h = "k2" -> {100000, 50000} [] h = "small" -> {3, 5}
     [] h = "start" -> {0, 1} [] h = "step" -> {1, 2} [] h = "d" -> {1, 2} [] h = "c0" -> {0, 1}
     [] h = "acc" -> {"+", "*", "-"}
@@ -318,6 +350,7 @@ CallQ == <<-1, 0, 5, 130, 2100>>
 Pairs(xs, ys) == [k \in 1..(Len(xs) * Len(ys)) |-> <<xs[((k - 1) \div Len(ys)) + 1], ys[((k - 1) % Len(ys)) + 1]>>]
 InSeq(p) == CASE p.tpl = "call" -> Pairs(CallQ, CallQ)
               [] p.tpl = "bigconst" -> Pairs(<<-2000, -500, 0, 18, 1500, 2500>>, <<0, 7>>)
+              [] p.tpl = "bigloop" -> Pairs(<<0, 3>>, <<0, 150, 230, 500>>)
               [] p.tpl = "ubig" -> Pairs(<<-70000, -9, -3, -1, 0, 5>>, <<0, 7>>)
               [] OTHER -> Pairs(SmallQ, SmallQ)
 InputsOf(p) == {InSeq(p)[k] : k \in DOMAIN InSeq(p)}
